@@ -9,7 +9,7 @@ pub const DEF: PropDef = PropDef {
     rule: "histories pre* BAD probe+ on one interpreter, in both submission styles (eval; compile then run only if compile succeeded). pre = well-formed sources (definitions, variables, values left on the stack, an open binary input). \
 BAD (family 1, rejected while read/compiled) = a well-formed prefix that leaves any combination of if / else / begin / while / do / case / of / [ / { / ^{ / : (with locals) / #( / enum open, possibly after completed definitions, variables and constants, + a failing token (unknown word, bad number / string / bit-string literal, unterminated string or comment, unmatched closer, var under a structure, const outside a meta block, or a run-time error inside a meta block) + trailing text that would be visible if it ever ran (pushes, prints, definitions). \
 Family 2 = a source that builds but fails at run time (inside a called word, a loop, after printing). probe = sources that observe the damage: depth, var, definitions with control structures, builders, meta blocks, calls to earlier words, the names BAD's text would have defined. \
-Oracle (metamorphic): the same history without BAD runs on a clone; after every probe both must agree on the result, the whole visible stack, stdout, every variable and the word list (family 2: probes are stack-independent and the comparison is on result, stdout, stack delta and pushed values). Directly after BAD: the call returned an error, mode / nesting / pending structures / pending input / visible stack are what they were, nothing of the trailing text was printed. \
+Oracle (metamorphic): the same history without BAD runs on a clone; after every probe both must agree on the result, the whole visible stack, stdout, every variable and the word list (family 2: probes are stack-independent and the comparison is on result, stdout, stack delta and pushed values; 1 family-2 case in 4 is a run stopped by a tiny instruction limit that is raised again for the probes). Directly after BAD: the call returned an error, mode / nesting / pending structures / pending input / visible stack are what they were, nothing of the trailing text was printed. \
 Non-trivial = BAD leaves >=1 structure or meta block open or has trailing text, and a probe inspects the stack or defines something; distinct = hash of the whole history",
     assumptions: &["buffer numbers in error locations are not compared (the rejected text legitimately occupies a source slot)", "heap and code lengths are not compared (a rejected `var` may leave an unreachable cell); behaviour through the dictionary, variables, stack and output is"],
     max_len: 300,
@@ -154,7 +154,12 @@ pub fn case(ch: &mut Choices, ctx: &CaseCtx) -> CaseOut {
     let mut open_structs = 0usize;
     let mut has_trailing = false;
     let mut trailing_at = usize::MAX;
-    let bad: String = if family2 {
+    // (family 2, 1 in 4: the run is stopped by the instruction limit instead of an error; the limit is raised again
+    // for the later sources, which must not run what was left of the stopped program)
+    let limit_stop = family2 && ch.chance(1, 4);
+    let bad: String = if limit_stop {
+        "1 2 3 drop drop drop \"leak\" print 4 5 drop drop \"leak\" print".to_string()
+    } else if family2 {
         RUNTIME_FAIL[ch.below(RUNTIME_FAIL.len())].to_string()
     } else {
         let mut parts: Vec<String> = Vec::new();
@@ -192,7 +197,7 @@ pub fn case(ch: &mut Choices, ctx: &CaseCtx) -> CaseOut {
         text
     };
     // classify on a scratch clone: family 1 must be rejected by compile, family 2 must build and fail in run
-    {
+    if !limit_stop {
         let mut s = a.clone();
         let c = guard(|| s.compile(&bad));
         match (family2, c) {
@@ -221,7 +226,13 @@ pub fn case(ch: &mut Choices, ctx: &CaseCtx) -> CaseOut {
     }
     log.push(format!("{}: {:?}", if family2 { "FAILS-AT-RUN-TIME" } else { "BAD" }, bad));
     let before = (xs::section(&a, "mode"), xs::section(&a, "nested_len"), xs::section(&a, "flow_len"), xs::section(&a, "input_len"), xs::render_stack(&a), xs::vars(&a), words(&a));
-    let r = match submit(&mut a, &bad, compile_style) {
+    let submitted = if limit_stop {
+        a.set_insn_limit(Some(3 + ch.below(4))).unwrap();
+        guard(|| if compile_style { a.compile(&bad).and_then(|_| a.run()) } else { a.eval(&bad) })
+    } else {
+        submit(&mut a, &bad, compile_style)
+    };
+    let r = match submitted {
         Ok(r) => r,
         Err(pm) => {
             out.fail(format!("panic: {}", pm), log.join("\n"));
@@ -337,6 +348,9 @@ pub fn case(ch: &mut Choices, ctx: &CaseCtx) -> CaseOut {
     }
     out.nontrivial = (open_structs > 0 || has_trailing || family2) && probe_defines_or_inspects;
     out.class(if family2 { "fails-at-run-time" } else { "rejected-at-build" });
+    if limit_stop {
+        out.class("stopped-by-the-instruction-limit");
+    }
     if open_structs > 0 {
         out.class("structures-open");
     }
